@@ -2,7 +2,7 @@
     drive (kinds 12, 13, 14).  Snapshots list, per internal list, the entries with the address of every
     linked node and the node addresses of the index; node names are global, so node identity across the
     lists (promotion, ghosting, revival) is part of what is compared with the implementation. *)
-From VF Require Import Base Enc Lru Slru Tiny WTiny TinyStep Heap HeapStep HeapSlruDef HeapSlruStep
+From VF Require Import Base Iter Enc Lru Slru Tiny WTiny TinyStep Heap HeapIterDef HeapStep HeapSlruDef HeapSlruStep
   HeapTwoQDef HeapArcDef HeapWTinyDef.
 From Coq Require Import List Arith.
 Import ListNotations.
@@ -42,6 +42,19 @@ Definition htqstep_enc (s : htqstate) (o : list Z) : option (htqstate * list Z *
     | [8] => Some (s, [zn (ilen (tq_r q) + ilen (tq_f q))], [0])
     | [9] => Some (s, [zn (tq_size q)], [0])
     | [10] => Some (s, [zb (Nat.eqb (ilen (tq_f q)) 0 && Nat.eqb (ilen (tq_r q)) 0 && Nat.eqb (ilen (tq_g q)) 0)], [0])
+    | [50] => Some (s, [zn (ilen (tq_r q))], [0])
+    | [51] => Some (s, [zn (ilen (tq_f q))], [0])
+    | [52] => Some (s, [zn (ilen (tq_g q))], [0])
+    | [26] => Some (s, [zn (ilen (tq_r q) + ilen (tq_f q)); zn (tq_size q)], [0])
+    | 60 :: i :: args =>                                        (* the per-list iterators *)
+      match dec_iter args with
+      | Some (kd, pre, pa, pb) =>
+        match ht_step (htq_h s) q (QIter i kd pre pa pb) with
+        | HOk (h1, s1, r) => Some (mkHtqstate h1 s1, enc_hout r, [0])
+        | HErr e => Some (s, [-2000; herr_code e], [0])
+        end
+      | None => Some (s, [], [0])
+      end
     | _ => None
     end
   | Some op =>
@@ -97,6 +110,20 @@ Definition hastep_enc (s : hastate) (o : list Z) : option (hastate * list Z * li
     | [9] => Some (s, [zn (ha_size q)], [0])
     | [10] => Some (s, [zb (Nat.eqb (ilen (ha_t1 q)) 0 && Nat.eqb (ilen (ha_b1 q)) 0
                             && Nat.eqb (ilen (ha_t2 q)) 0 && Nat.eqb (ilen (ha_b2 q)) 0)], [0])
+    | [70] => Some (s, [zn (ha_p q)], [0])
+    | [71] => Some (s, [zn (ilen (ha_t1 q))], [0])
+    | [72] => Some (s, [zn (ilen (ha_t2 q))], [0])
+    | [73] => Some (s, [zn (ilen (ha_b1 q))], [0])
+    | [74] => Some (s, [zn (ilen (ha_b2 q))], [0])
+    | 60 :: i :: args =>
+      match dec_iter args with
+      | Some (kd, pre, pa, pb) =>
+        match ha_step (has_h s) q (AIter i kd pre pa pb) with
+        | HOk (h1, s1, r) => Some (mkHastate h1 s1, enc_hout r, [0])
+        | HErr e => Some (s, [-2000; herr_code e], [0])
+        end
+      | None => Some (s, [], [0])
+      end
     | _ => None
     end
   | Some op =>
@@ -158,6 +185,10 @@ Definition hwstep_enc (s : hwstate) (o : list Z) : option (hwstate * list Z * li
     | [9] => Some (s, [zn (hcap (hw_lru q) + hs_cap (hw_slru q))], [0])
     | [10] => Some (s, [zb (Nat.eqb (ilen (hw_lru q)) 0 && Nat.eqb (ilen (hprot (hw_slru q))) 0
                             && Nat.eqb (ilen (hprob (hw_slru q))) 0)], [0])
+    | [100] => Some (s, [zn (ilen (hw_lru q))], [0])
+    | [101] => Some (s, [zn (hcap (hw_lru q))], [0])
+    | [102] => Some (s, [zn (hs_len (hw_slru q))], [0])
+    | [103] => Some (s, [zn (hs_cap (hw_slru q))], [0])
     | _ => None
     end
   | Some op =>
